@@ -15,6 +15,8 @@ fn cfg(mode: Mode, faults: bool, variant: u32) -> ScenCfg {
 const REAL_SERVER_TCP: &str = "rodbus TCP server task, rodbus server session task, MBAP parser/ReadBuffer/FrameWriter, request parsing, reply serialisation, tokio mpsc/select";
 const STUB_SERVER_TCP: &str = "network (simtokio), clock, executor, peer (director), application handlers (instrumented point memory)";
 
+const REAL_SERVER_RTU: &str = "rodbus RTU server task (open/retry loop), server session task, RTU parser (length rules, CRC check), ReadBuffer, FrameWriter (RTU), request parsing, broadcast fan-out, PhysLayer inter-character delay";
+const STUB_SERVER_RTU: &str = "serial port registry (simserial), clock, executor, line peer (director), application handlers (instrumented point memory)";
 const REAL_CLIENT_TCP: &str = "rodbus TCP client task (connect/retry loop, ClientLoop, request execution), Channel / CallbackSession handles, MBAP framing, request serialisation, response parsing, tokio mpsc/oneshot/select";
 const STUB_CLIENT_TCP: &str = "network (simtokio), clock, executor, peer (director), connection listener (recording)";
 
@@ -28,6 +30,7 @@ pub fn get(prop: &str, tier: &str) -> Option<Check> {
             batches: vec![
                 Batch { name: "server_tcp_model", f: scen::server_tcp::run_model, cfg: cfg(Mode::LockStep, false, 0), runs: n(60_000, 1_500_000), real: REAL_SERVER_TCP, stub: STUB_SERVER_TCP },
                 Batch { name: "server_tcp_model_faults", f: scen::server_tcp::run_model, cfg: cfg(Mode::LockStep, true, 0), runs: n(20_000, 500_000), real: REAL_SERVER_TCP, stub: STUB_SERVER_TCP },
+                Batch { name: "rtu_server_model", f: scen::rtu::run_server_model, cfg: cfg(Mode::LockStep, false, 0), runs: n(40_000, 1_000_000), real: REAL_SERVER_RTU, stub: STUB_SERVER_RTU },
             ],
             assumptions: vec!["model::server encodes the Modbus application protocol as stated in C01 (DESIGN.md A.1)", "byte-count field of write-multiple requests is not part of the statement"],
         },
@@ -37,6 +40,7 @@ pub fn get(prop: &str, tier: &str) -> Option<Check> {
             batches: vec![
                 Batch { name: "server_tcp_model", f: scen::server_tcp::run_model, cfg: cfg(Mode::LockStep, false, 0), runs: n(60_000, 1_500_000), real: REAL_SERVER_TCP, stub: STUB_SERVER_TCP },
                 Batch { name: "server_tcp_model_faults", f: scen::server_tcp::run_model, cfg: cfg(Mode::LockStep, true, 0), runs: n(20_000, 500_000), real: REAL_SERVER_TCP, stub: STUB_SERVER_TCP },
+                Batch { name: "rtu_server_model", f: scen::rtu::run_server_model, cfg: cfg(Mode::LockStep, false, 0), runs: n(40_000, 1_000_000), real: REAL_SERVER_RTU, stub: STUB_SERVER_RTU },
             ],
             assumptions: vec!["handlers are the harness's instrumented point memory"],
         },
@@ -87,6 +91,24 @@ pub fn get(prop: &str, tier: &str) -> Option<Check> {
             }
             Check { prop: p, rule_text: text, batches, assumptions: vec!["lock-step runs use the canonical schedule (FIFO ready queue, select! start index 0) for which the exact model is defined; free interleavings are explored by the racy batches"] }
         }
+        "C06" => Check {
+            prop: "C06",
+            rule_text: "each run: real RTU server task over the simulated serial line (UART model), 1-10 bursts of 1-3 request frames (all eight functions, boundary quantities, independent byte-count fields) where the last frame of a burst may be corrupted (1-bit, 2-bit, <=16-bit burst, CRC bytes swapped / one wrong / big-endian) or carry an unknown function; delivered under random chunkings with commands mid-frame; the bytes on the line and the handler journal must equal model::rtu (independent bitwise CRC-16, length from function code/byte count) composed with model::server; a frame failing CRC/length must end the session (port closed, reopened exactly after the retry delay, then served again). Distinct = hash of frame prefixes.",
+            batches: vec![
+                Batch { name: "rtu_server_model", f: scen::rtu::run_server_model, cfg: cfg(Mode::LockStep, false, 0), runs: n(80_000, 2_000_000), real: REAL_SERVER_RTU, stub: STUB_SERVER_RTU },
+                Batch { name: "rtu_server_model_faults", f: scen::rtu::run_server_model, cfg: cfg(Mode::LockStep, true, 0), runs: n(30_000, 800_000), real: REAL_SERVER_RTU, stub: STUB_SERVER_RTU },
+            ],
+            assumptions: vec!["line model: bytes written while the port is closed are lost (UART)", "what a mis-framed parser consumes before failing is not specified: the session is reset"],
+        },
+        "C17" => Check {
+            prop: "C17",
+            rule_text: "RTU: same runs as C06 (unit ids 0..255, 1/5 of frames to unit 0): frames to unconfigured ids produce no bytes on the line; unit 0 + write calls the matching write handler of every configured unit exactly once (journal multiset) and nothing is transmitted, unit 0 + read does nothing; TCP: same runs as C01 (unconfigured ids, empty bodies stay unanswered).",
+            batches: vec![
+                Batch { name: "rtu_server_model", f: scen::rtu::run_server_model, cfg: cfg(Mode::LockStep, false, 0), runs: n(80_000, 2_000_000), real: REAL_SERVER_RTU, stub: STUB_SERVER_RTU },
+                Batch { name: "server_tcp_model", f: scen::server_tcp::run_model, cfg: cfg(Mode::LockStep, false, 0), runs: n(40_000, 1_000_000), real: REAL_SERVER_TCP, stub: STUB_SERVER_TCP },
+            ],
+            assumptions: vec!["checked without an authorization handler (the authz veto for unconfigured ids is C01's carve-out)"],
+        },
         _ => return None,
     })
 }
